@@ -11,7 +11,7 @@ from harness.core import Acc, Violation, fr, lib, must, must_raise
 from harness.hyp import job_seed, run_property, scaled
 
 PROP = "C03"
-RULE = ("Exhaustive: every matrix over {-1,0,1} for p=1..3 and every zero-diagonal 4x4 sign pattern; "
+RULE = ("Exhaustive: every matrix over {-1,0,1} for p=1..3 and every zero-diagonal 4x4 sign pattern; directed paths / cycles through 1100..2500 (thorough: 6000) scrambled nodes; "
         "generated: signed/cancelling DAG weights, DAG + back edges / two-cycles / self-loops whose cycle, column or "
         "total weight sums are <0, =0 or >0, and sparse arbitrary real matrices (p<=8 quick, <=14 thorough), int and "
         "float dtype. Oracle: 3-colour DFS on the non-zero pattern; is_dag must equal it, topological_ordering must "
@@ -55,7 +55,56 @@ def is_nontrivial(case, labels):
     return any(l in labels for l in ("neg", "col_sum_le0", "total_le0"))
 
 
+def _long_matrix(case):
+    """A single directed path through all p nodes (labels scrambled by an affine map, weights of alternating sign,
+    some tiny), optionally closed into one long cycle: acyclic / cyclic by construction."""
+    p, a, b = case["p"], case["a"], case["b"]
+    lab = [(a * k + b) % p for k in range(p)]
+    M = np.zeros((p, p))
+    vals = [1.0, -1.0, 0.5, -2.0, 1e-13, -3.0]
+    for k in range(p - 1):
+        M[lab[k], lab[k + 1]] = vals[k % len(vals)]
+    if case["cyclic"]:
+        M[lab[p - 1], lab[case.get("back_to", 0)]] = -0.5
+    return M
+
+
+def check_long(case):
+    import sempler
+    import sempler.utils as utils
+    import sempler.noise as noise
+    M = _long_matrix(case)
+    p = len(M)
+    cyclic = case["cyclic"]
+    what = "directed path on %d nodes%s" % (p, " closed into a cycle" if cyclic else "")
+    got = must(lib(utils.is_dag, M), "is_dag(%s)" % what)
+    if bool(got) != (not cyclic):
+        raise Violation("is_dag_wrong", "is_dag returned %r for a %s" % (got, what))
+    o = lib(utils.topological_ordering, M)
+    gates = [("LGANM", lambda: sempler.LGANM(M, np.zeros(p), np.ones(p)))]
+    if p <= 1600:
+        gates.append(("ANM", lambda: sempler.ANM(M, [None] * p, [noise.normal()] * p)))
+    if cyclic:
+        must_raise(o, ValueError, "topological_ordering(%s)" % what)
+        for nm, g in gates:
+            must_raise(lib(g), ValueError, "%s(%s)" % (nm, what))
+    else:
+        order = np.array([int(x) for x in must(o, "topological_ordering(%s)" % what)])
+        if order.shape != (p,) or not np.array_equal(np.sort(order), np.arange(p)):
+            raise Violation("ordering_not_permutation", "ordering of a %s is not a permutation" % what)
+        pos = np.empty(p, dtype=int)
+        pos[order] = np.arange(p)
+        fro, to = np.nonzero(M)
+        if not (pos[fro] < pos[to]).all():
+            raise Violation("ordering_edge_backward", "ordering of a %s has a backward edge" % what)
+        for nm, g in gates:
+            must(lib(g), "%s(%s)" % (nm, what))
+    return ["long_path", "cyclic" if cyclic else "acyclic", "neg", "p_%d" % p]
+
+
 def check(case):
+    if case["sub"] == "long_path":
+        return check_long(case)
     import sempler
     import sempler.utils as utils
     import sempler.noise as noise
@@ -179,18 +228,24 @@ def structured_matrix(draw, p_max):
                     W[0][1], W[1][0] = Fraction(1), Fraction(-1)
                     break
                 (i, j) = draw(st.sampled_from(pairs))          # j is a descendant of i: add j -> i
-                mode = draw(st.sampled_from(["col_zero", "total_zero", "neg", "pos", "total_neg"]))
+                mode = draw(st.sampled_from(["col_zero", "total_zero", "neg", "pos", "total_neg", "tiny", "tiny_neg"]))
                 col = sum(W[r][i] for r in range(p))
                 tot = sum(sum(r) for r in W)
                 w = {"col_zero": -col, "total_zero": -tot, "neg": Fraction(-3, 2), "pos": Fraction(5, 4),
-                     "total_neg": -tot - 1}[mode]
+                     "total_neg": -tot - 1, "tiny": Fraction(1, 2 ** 60), "tiny_neg": -Fraction(1, 2 ** 200)}[mode]
                 if w == 0:
                     w = Fraction(-1)
                 W[j][i] = w
     integral = all(x.denominator == 1 for row in W for x in row)
     dtype = draw(st.sampled_from(["int", "float"])) if integral else "float"
     from harness.core import fstr
-    return {"sub": "hyp_structured", "M": [[fstr(x) for x in row] for row in W], "dtype": dtype,
+
+    def js(x):
+        try:
+            return fstr(x)
+        except ValueError:          # a sum of tiny and ordinary weights: store the nearest double (still non-zero)
+            return float(x) if float(x) != 0 else (5e-324 if x > 0 else -5e-324)
+    return {"sub": "hyp_structured", "M": [[js(x) for x in row] for row in W], "dtype": dtype,
             "kind": kind, "wclass": cls}
 
 
@@ -203,6 +258,8 @@ def _hyp(acc, job):
 
 def plan(tier, seed):
     jobs = [{"sub": "exh_p123", "seed": seed, "cost": 5}]
+    for p in ([1100, 1500, 2500] if tier == "quick" else [1100, 1500, 2500, 4000, 6000]):
+        jobs.append({"sub": "long_path", "seed": seed, "p": p, "cost": 9 + p // 500})
     n4 = 3 ** 12
     shards4 = 48
     for k in range(shards4):
@@ -219,6 +276,18 @@ def run(job):
     acc = Acc(job["sub"])
     if job["sub"] == "exh_p123":
         _exh_small(acc)
+    elif job["sub"] == "long_path":
+        p = job["p"]
+        a = next(x for x in range(p // 3 + job["seed"] % 7, p) if np.gcd(x, p) == 1)
+        for cyclic, back in ((False, 0), (True, 0), (True, p // 2)):
+            case = {"sub": "long_path", "p": p, "a": int(a), "b": 17 % p, "cyclic": cyclic, "back_to": back}
+            try:
+                lab = check(case)
+                acc.record(case, lab, True, by_construction=True)
+            except Violation as v:
+                acc.record(case, [], False)
+                acc.violation(case, v)
+        acc.exhaustive = False
     elif job["sub"] == "exh_p4_sign":
         _exh4(acc, job["lo"], job["hi"])
     else:
